@@ -23,7 +23,7 @@ ASSUMPTIONS = [
 ]
 NCASES = {"quick": 8000, "thorough": 120000}
 NSHARDS = 16
-SHARD_TIMEOUT = {"quick": 600, "thorough": 3600}
+SHARD_TIMEOUT = {"quick": 300, "thorough": 3600}
 
 PAYLOADS = ["distinct", "equal", "nan", "few", "raising_eq", "falsy", "none", "nodes"]
 OPS = ["append", "prepend", "extend", "pre_extend", "remove", "pop_back", "pop_front", "move_to_front",
